@@ -1,4 +1,424 @@
-/-! Model/C01 — executable model (core Lean only; imports only NibabelModel.Basic.* / other Model files). -/
+/-
+  Model/C01 — executable model of the scaling-free voxel write/read path of the volume formats
+  (NIfTI-1/2 single + pair, Analyze, SPM99/SPM2 Analyze, MGH/MGZ).  Core Lean only.
+
+  Conventions
+  * a byte is a `Nat` (< 256 when produced by the model); a file is a `List Nat`;
+  * an element ("voxel") is the list of its `k` components, each a raw bit pattern `< 256^cw`
+    (`cw` = component width in bytes): integers and floats have `k = 1`, complex `k = 2`
+    (real, imag), RGB `k = 3`, RGBA `k = 4` with `cw = 1`.  Floats are *bit patterns*, so NaN payloads,
+    signed zeros and infinities are ordinary values of the model.  On-disk byte order acts on each
+    component separately (as NumPy's dtype byte order does);
+  * a logical array is a function from multi-indices to elements together with a shape; whatever the
+    memory layout of the NumPy input (C/F/strided/negative strides), NumPy's *logical* indexing is the
+    trusted interface.
+
+  Python source modelled (pinned tree after the `fix:` commits):
+    arraywriters.py:95-151   ArrayWriter.scaling_needed
+    arraywriters.py:287-311  SlopeArrayWriter.scaling_needed (also used by SlopeInterArrayWriter)
+    volumeutils.py:603-604   array_to_file direct-cast path (null scaling + can_cast) and the in-range
+                             int->int "clip" path / the float-out path with slope 1, inter 0
+    volumeutils.py:718-783   _write_data: squeeze, transpose, loop over slabs, `tobytes()`
+    volumeutils.py:391-479   array_from_file (non-mmap branch; the mmap branch is NumPy)
+    analyze.py:990-1066      AnalyzeImage.to_file_map: header, seek_tell(write0=True), data
+    freesurfer/mghformat.py:295-334,537-578  MGH shape rules, header(284) ‖ data ‖ footer
+    openers.py:186-197       Opener._get_opener_argnames (codec by suffix)
+  External (parameters / trusted): NumPy element casts between different float widths, the
+  compression codecs (decompress ∘ compress = id), NumPy's `can_cast` table (re-validated
+  exhaustively against NumPy by the `sn` correspondence stream on every run).
+-/
 namespace Nb.C01
+
+/-! ### byte codec -/
+
+inductive Endian where
+  | little | big
+  deriving Repr, DecidableEq, Inhabited
+
+/-- little-endian bytes of `v` in width `w` (truncating, like a C cast) -/
+def encLE : Nat → Nat → List Nat
+  | 0, _ => []
+  | w + 1, v => (v % 256) :: encLE w (v / 256)
+
+def decLE : List Nat → Nat
+  | [] => 0
+  | b :: bs => b + 256 * decLE bs
+
+def enc (e : Endian) (w v : Nat) : List Nat :=
+  match e with
+  | .little => encLE w v
+  | .big => (encLE w v).reverse
+
+def dec (e : Endian) (bs : List Nat) : Nat :=
+  match e with
+  | .little => decLE bs
+  | .big => decLE bs.reverse
+
+/-- two's-complement bit pattern of the integer `v` in `w` bytes -/
+def toBits (w : Nat) (v : Int) : Nat := (v % ((256 ^ w : Nat) : Int)).toNat
+
+/-- integer value of a `w`-byte pattern -/
+def ofBits (signed : Bool) (w : Nat) (u : Nat) : Int :=
+  if signed && decide (256 ^ w ≤ 2 * u) then (u : Int) - ((256 ^ w : Nat) : Int) else (u : Int)
+
+/-- `np.iinfo(dtype).min` / `.max` -/
+def intMin (signed : Bool) (w : Nat) : Int :=
+  if signed then -(((256 ^ w / 2 : Nat)) : Int) else 0
+
+def intMax (signed : Bool) (w : Nat) : Int :=
+  if signed then ((256 ^ w / 2 : Nat) : Int) - 1 else ((256 ^ w : Nat) : Int) - 1
+
+def InRange (signed : Bool) (w : Nat) (v : Int) : Prop := intMin signed w ≤ v ∧ v ≤ intMax signed w
+
+instance (s : Bool) (w : Nat) (v : Int) : Decidable (InRange s w v) := by
+  unfold InRange; exact inferInstance
+
+/-- an element: `k` components of `cw` bytes each -/
+abbrev Elem := List Nat
+
+def encElem (e : Endian) (cw : Nat) (x : Elem) : List Nat := x.flatMap (enc e cw)
+
+/-- split a list into `n` consecutive chunks of `w` items -/
+def chunks {α} (w : Nat) : Nat → List α → List (List α)
+  | 0, _ => []
+  | n + 1, l => l.take w :: chunks w n (l.drop w)
+
+def decElem (e : Endian) (cw k : Nat) (bs : List Nat) : Elem := (chunks cw k bs).map (dec e)
+
+/-! ### dtypes and `scaling_needed` -/
+
+inductive DKind where
+  | uint | sint | float | complex | void
+  deriving Repr, DecidableEq, Inhabited
+
+/-- a NumPy dtype as far as the writer looks at it: kind, component width, number of components.
+    `void` stands for the structured RGB (`k = 3`) / RGBA (`k = 4`) dtypes. -/
+structure DType where
+  kind : DKind
+  cw : Nat
+  k : Nat
+  deriving Repr, DecidableEq, Inhabited
+
+def DType.itemsize (t : DType) : Nat := t.cw * t.k
+
+def DType.isInt (t : DType) : Bool := t.kind == .uint || t.kind == .sint
+def DType.signed (t : DType) : Bool := t.kind == .sint
+
+/-- the dtype names of the line protocol -/
+def dtypeOfName : String → Option DType
+  | "u1" => some ⟨.uint, 1, 1⟩ | "u2" => some ⟨.uint, 2, 1⟩
+  | "u4" => some ⟨.uint, 4, 1⟩ | "u8" => some ⟨.uint, 8, 1⟩
+  | "i1" => some ⟨.sint, 1, 1⟩ | "i2" => some ⟨.sint, 2, 1⟩
+  | "i4" => some ⟨.sint, 4, 1⟩ | "i8" => some ⟨.sint, 8, 1⟩
+  | "f2" => some ⟨.float, 2, 1⟩ | "f4" => some ⟨.float, 4, 1⟩
+  | "f8" => some ⟨.float, 8, 1⟩ | "f16" => some ⟨.float, 16, 1⟩
+  | "c8" => some ⟨.complex, 4, 2⟩ | "c16" => some ⟨.complex, 8, 2⟩
+  | "c32" => some ⟨.complex, 16, 2⟩
+  | "rgb" => some ⟨.void, 1, 3⟩ | "rgba" => some ⟨.void, 1, 4⟩
+  | _ => none
+
+/-- `np.can_cast(a, b)` (casting='safe') on the dtypes above.  integer -> integer is the part the
+    theorems rely on; the rest is NumPy's table, re-validated exhaustively on every run.
+    `f16`/`c32` are x86 `longdouble` (64-bit mantissa). -/
+def canCast (a b : DType) : Bool :=
+  match a.kind, b.kind with
+  | .uint, .uint => a.cw ≤ b.cw
+  | .uint, .sint => a.cw < b.cw
+  | .sint, .sint => a.cw ≤ b.cw
+  | .sint, .uint => false
+  | .uint, .float => a.cw < b.cw || (a.cw == 8 && b.cw == 8)
+  | .sint, .float => a.cw < b.cw || (a.cw == 8 && b.cw == 8)
+  | .uint, .complex => a.cw < b.cw || (a.cw == 8 && b.cw == 8)
+  | .sint, .complex => a.cw < b.cw || (a.cw == 8 && b.cw == 8)
+  | .float, .float => a.cw ≤ b.cw
+  | .float, .complex => a.cw ≤ b.cw
+  | .complex, .complex => a.cw ≤ b.cw
+  | .float, _ => false
+  | .complex, _ => false
+  | .void, _ => a == b
+  | _, .void => false
+
+/-- what `finite_range()` reports (arraywriters.py `finite_range`, volumeutils.finite_range):
+    exact integers for integer input; for float input only the three cases the decision looks at. -/
+inductive Range where
+  | ints (mn mx : Int)
+  | floatZero      -- (mn, mx) == (0, 0): at least one finite value and all finite values are ±0
+  | floatNone      -- (inf, -inf): no finite value
+  | floatOther
+  deriving Repr, DecidableEq, Inhabited
+
+inductive Err where
+  | writer       -- WriterError
+  | short        -- OSError: fewer bytes than expected
+  | headerData   -- HeaderDataError
+  | value        -- ValueError
+  deriving Repr, DecidableEq, Inhabited
+
+/-- `ArrayWriter.scaling_needed` (arraywriters.py:95-151) -/
+def scalingNeededBase (a o : DType) (size : Nat) (r : Range) : Except Err Bool :=
+  if a.kind = .void ∨ o.kind = .void then
+    (if a = o then .ok false else .error .writer)
+  else if canCast a o then .ok false
+  else if o.kind = .complex then .ok false
+  else if a.kind = .complex then .error .writer
+  else if o.kind = .float then .ok false
+  else if size = 0 then .ok false
+  else match r with
+    | .floatZero => .ok false
+    | .ints mn mx =>
+        if mn = 0 ∧ mx = 0 then .ok false
+        else if a.kind = .float then .ok true
+        else .ok (!(decide (intMin o.signed o.cw ≤ mn) && decide (mx ≤ intMax o.signed o.cw)))
+    | _ => if a.kind = .float then .ok true else .ok true
+
+/-- `SlopeArrayWriter.scaling_needed` (arraywriters.py:287-311) -/
+def scalingNeededSlope (a o : DType) (size : Nat) (r : Range) : Except Err Bool :=
+  match scalingNeededBase a o size r with
+  | .error e => .error e
+  | .ok false => .ok false
+  | .ok true => .ok (r != .floatNone)
+
+/-- min / max of a non-empty list of integers -/
+def listMin : List Int → Int
+  | [] => 0
+  | [x] => x
+  | x :: xs => min x (listMin xs)
+
+def listMax : List Int → Int
+  | [] => 0
+  | [x] => x
+  | x :: xs => max x (listMax xs)
+
+/-- `finite_range` of an integer array -/
+def intRange (vals : List Int) : Range := .ints (listMin vals) (listMax vals)
+
+/-- the int -> int decision on concrete values, as the writer takes it -/
+def scalingNeededInt (aSigned : Bool) (aw : Nat) (oSigned : Bool) (ow : Nat) (vals : List Int) : Except Err Bool :=
+  scalingNeededBase ⟨if aSigned then .sint else .uint, aw, 1⟩ ⟨if oSigned then .sint else .uint, ow, 1⟩
+    vals.length (intRange vals)
+
+/-! ### index enumeration -/
+
+/-- all multi-indices of `shape`, first axis fastest (Fortran order) -/
+def enumF : List Nat → List (List Nat)
+  | [] => [[]]
+  | n :: rest => (enumF rest).flatMap (fun tl => (List.range n).map (fun i => i :: tl))
+
+/-- all multi-indices of `shape`, last axis fastest (C order) -/
+def enumC : List Nat → List (List Nat)
+  | [] => [[]]
+  | n :: rest => (List.range n).flatMap (fun i => (enumC rest).map (fun tl => i :: tl))
+
+/-- flat Fortran-order position of a multi-index -/
+def ravelF : List Nat → List Nat → Nat
+  | n :: rest, i :: tl => i + n * ravelF rest tl
+  | _, _ => 0
+
+/-- flat C-order position of a multi-index -/
+def ravelC : List Nat → List Nat → Nat
+  | _ :: rest, i :: tl => i * rest.prod + ravelC rest tl
+  | _, _ => 0
+
+/-- `np.squeeze`: drop the length-1 axes -/
+def squeeze (shape : List Nat) : List Nat := shape.filter (· ≠ 1)
+
+/-- index into the original array of an index into the squeezed view -/
+def unsqueezeIdx : List Nat → List Nat → List Nat
+  | [], _ => []
+  | n :: rest, idx =>
+      if n = 1 then 0 :: unsqueezeIdx rest idx
+      else match idx with
+        | i :: tl => i :: unsqueezeIdx rest tl
+        | [] => 0 :: unsqueezeIdx rest []
+
+/-! ### writing -/
+
+/-- `s = init ++ [last]` -/
+def splitLast : List Nat → Option (List Nat × Nat)
+  | [] => none
+  | [x] => some ([], x)
+  | x :: y :: ys => (splitLast (y :: ys)).map (fun p => (x :: p.1, p.2))
+
+/-- the slabs `_write_data` loops over (volumeutils.py:758-763, order 'F'): after `np.squeeze`, a
+    0-D or 1-D array is one row (`atleast_2d`); otherwise `data.T` is iterated over its first axis (= the
+    LAST axis of the squeezed array) and each slab is serialised with `tobytes()` (C order of the
+    transposed slab = first axis of the squeezed array fastest). Indices are into the squeezed array. -/
+def slabs (s : List Nat) : List (List (List Nat)) :=
+  if s.length < 2 then [enumF s]
+  else match splitLast s with
+    | some (init, last) => (List.range last).map (fun j => (enumF init).map (fun i => i ++ [j]))
+    | none => [enumF s]
+
+/-- `_write_data` on the direct-cast path: bytes written for logical array `A` of shape `shape`;
+    every element is already in on-disk representation (`A i` = components as bit patterns). -/
+def writeData (e : Endian) (cw : Nat) (shape : List Nat) (A : List Nat → Elem) : List Nat :=
+  (slabs (squeeze shape)).flatMap (fun slab =>
+    slab.flatMap (fun i => encElem e cw (A (unsqueezeIdx shape i))))
+
+/-- `seek_tell(fileobj, offset, write0=True)` after `pos` bytes were written: zero fill (by the seek
+    of a plain file followed by a write, or by explicit zeros on a compressed stream).  For an EMPTY
+    data block a plain file is not extended by the seek alone; nothing is read back in that case. -/
+def padTo (offset : Nat) (l : List Nat) : List Nat := l ++ List.replicate (offset - l.length) 0
+
+/-- data file of every Analyze-family image (analyze.py:1037-1046): what was written before the data
+    in the same file (`h` = header ‖ extender ‖ extensions for single-file NIfTI, empty for the `.img`
+    of a pair), zero fill up to the data offset, then the data.  Precondition of the real code (checked
+    by the header classes before anything is written): `h.length ≤ offset`. -/
+def writeFile (h : List Nat) (offset : Nat) (e : Endian) (cw : Nat) (shape : List Nat)
+    (A : List Nat → Elem) : List Nat :=
+  padTo offset h ++ writeData e cw shape A
+
+/-! ### reading -/
+
+/-- `array_from_file(shape, dtype, infile, offset, order='F')`, non-mmap branch
+    (volumeutils.py:455-479, after `fix: array_from_file returns an empty array of the requested
+    shape`).  Returns the shape of the returned array and its elements in Fortran order.  A rank-0
+    shape still hands back an empty 1-D array (rank 0 is outside the property: 1-7 dims). -/
+def readData (file : List Nat) (offset : Nat) (e : Endian) (cw k : Nat) (shape : List Nat) :
+    Except Err (List Nat × List Elem) :=
+  if shape = [] then .ok ([0], [])
+  else
+    let n := shape.prod
+    let nbytes := n * (cw * k)
+    if nbytes = 0 then .ok (shape, [])          -- np.zeros(shape, in_dtype, order=order)
+    else
+      let got := (file.drop offset).take nbytes
+      if got.length ≠ nbytes then .error .short
+      else .ok (shape, (chunks (cw * k) n got).map (decElem e cw k))
+
+/-- the ORIGINAL (pinned) logic: `if n_bytes == 0: return np.array([], in_dtype)` -/
+def readDataOrig (file : List Nat) (offset : Nat) (e : Endian) (cw k : Nat) (shape : List Nat) :
+    Except Err (List Nat × List Elem) :=
+  if shape = [] then .ok ([0], [])
+  else
+    let n := shape.prod
+    let nbytes := n * (cw * k)
+    if nbytes = 0 then .ok ([0], [])
+    else
+      let got := (file.drop offset).take nbytes
+      if got.length ≠ nbytes then .error .short
+      else .ok (shape, (chunks (cw * k) n got).map (decElem e cw k))
+
+/-- element at multi-index `i` of the array `np.ndarray(shape, dtype, buffer, order='F')` -/
+def loadedAt (shape : List Nat) (els : List Elem) (i : List Nat) : Elem :=
+  els.getD (ravelF shape i) []
+
+/-! ### MGH (freesurfer/mghformat.py) -/
+
+/-- `MGHImage.__init__`: data of rank < 3 is reshaped to rank 3 by appending length-1 axes -/
+def mghImageShape (shape : List Nat) : List Nat :=
+  shape ++ List.replicate (3 - shape.length) 1
+
+/-- `MGHHeader.set_data_shape` then `get_data_shape` (mghformat.py:295-316): `dims` always holds 4
+    numbers; a 4th number equal to 1 is dropped when the shape is asked for. -/
+def mghHeaderShape (shape : List Nat) : Except Err (List Nat) :=
+  if shape.length > 4 then .error .value
+  else
+    let dims := shape ++ List.replicate (4 - shape.length) 1
+    if dims.getD 3 0 = 1 then .ok (dims.take 3) else .ok dims
+
+def mghDataOffset : Nat := 284
+
+/-- `MGHImage.to_file_map` (mghformat.py:537-578): header (284 bytes, `hdr.length ≤ 284`), data at
+    284 (always big-endian), footer directly after the data.  `imgShape` is the image's shape. -/
+def mghWrite (hdr ftr : List Nat) (cw : Nat) (imgShape : List Nat) (A : List Nat → Elem) :
+    Except Err (List Nat) :=
+  match mghHeaderShape imgShape with
+  | .error e => .error e
+  | .ok hs =>
+      if imgShape ≠ hs then .error .headerData     -- "Data should be shape ..."
+      else .ok (padTo mghDataOffset hdr ++ writeData .big cw imgShape A ++ ftr)
+
+/-- `MGHHeader.get_footer_offset` -/
+def mghFooterOffset (cw k : Nat) (shape : List Nat) : Nat := mghDataOffset + (cw * k) * shape.prod
+
+/-! ### specification predicates used by the theorems -/
+
+/-- an element fits `k` components of `cw` bytes -/
+def ElemOK (cw k : Nat) (x : Elem) : Prop := x.length = k ∧ ∀ c ∈ x, c < 256 ^ cw
+
+instance (cw k : Nat) (x : Elem) : Decidable (ElemOK cw k x) := by
+  unfold ElemOK; exact inferInstance
+
+/-- `i` is a valid multi-index of an array of shape `shape` -/
+def InBounds : List Nat → List Nat → Prop
+  | [], [] => True
+  | n :: rest, i :: tl => i < n ∧ InBounds rest tl
+  | _, _ => False
+
+instance : ∀ (s i : List Nat), Decidable (InBounds s i)
+  | [], [] => isTrue trivial
+  | n :: rest, i :: tl =>
+      have := instDecidableInBounds rest tl
+      by unfold InBounds; exact inferInstance
+  | [], _ :: _ => isFalse (by simp [InBounds])
+  | _ :: _, [] => isFalse (by simp [InBounds])
+
+/-- the integer kind of a signedness flag -/
+def intKind (signed : Bool) : DKind := if signed then .sint else .uint
+
+/-! ### Opener: codec by file-name suffix (openers.py:186-197) -/
+
+inductive Codec where
+  | raw | gz | bz2 | zst
+  deriving Repr, DecidableEq, Inhabited
+
+def codecOfName : String → Option Codec
+  | "raw" => some .raw | "gz" => some .gz | "bz2" => some .bz2 | "zst" => some .zst | _ => none
+
+def Codec.name : Codec → String
+  | .raw => "raw" | .gz => "gz" | .bz2 => "bz2" | .zst => "zst"
+
+/-- index of the last occurrence of `c` (position from the front), if any -/
+def rfind (c : Char) (s : List Char) : Option Nat :=
+  match s with
+  | [] => none
+  | x :: xs => match rfind c xs with
+    | some i => some (i + 1)
+    | none => if x = c then some 0 else none
+
+/-- last path component (`p[p.rfind('/') + 1:]`) -/
+def baseName (p : List Char) : List Char :=
+  match rfind '/' p with
+  | some i => p.drop (i + 1)
+  | none => p
+
+/-- `os.path.splitext(p)[1]` (posixpath / genericpath._splitext): extension starts at the last dot
+    of the last path component, unless that component has only dots before it. -/
+def splitExt (p : List Char) : List Char :=
+  let base := baseName p
+  match rfind '.' base with
+  | none => []
+  | some d => if (base.take d).all (· = '.') then [] else base.drop d
+
+def lowerAscii (s : List Char) : List Char := s.map Char.toLower
+
+/-- the codec table from the generated `(extension, codec name)` pairs -/
+def codecTableOf (raw : List (String × String)) : List (String × Codec) :=
+  raw.filterMap (fun kv => (codecOfName kv.2).map (fun c => (kv.1, c)))
+
+/-- lookup of an extension in `compress_ext_map` (lower-cased on both sides when `compress_ext_icase`),
+    default = plain `open` -/
+def codecOfExt (table : List (String × Codec)) (icase : Bool) (ext : List Char) : Codec :=
+  let hit :=
+    if icase then table.find? (fun kv => lowerAscii kv.1.toList = lowerAscii ext)
+    else table.find? (fun kv => kv.1.toList = ext)
+  match hit with
+  | some kv => kv.2
+  | none => .raw
+
+/-- `Opener._get_opener_argnames(fileish)`: the choice takes the file name only -/
+def codecFor (table : List (String × Codec)) (icase : Bool) (name : List Char) : Codec :=
+  codecOfExt table icase (splitExt name)
+
+inductive Mode where
+  | rb | wb
+  deriving Repr, DecidableEq, Inhabited
+
+/-- `Opener.__init__(fileish, mode)`: the opener function comes from `_get_opener_argnames(fileish)`,
+    the mode is only passed on to it -/
+def openerInit (table : List (String × Codec)) (icase : Bool) (mode : Mode) (name : List Char) :
+    Codec × Mode :=
+  (codecFor table icase name, mode)
 
 end Nb.C01
